@@ -98,7 +98,34 @@ module Nat =
 
   let ltb n0 m =
     leb (S n0) m
+
+  (** val divmod : nat -> nat -> nat -> nat -> nat * nat **)
+
+  let rec divmod x y q u =
+    match x with
+    | O -> (q, u)
+    | S x' ->
+      (match u with
+       | O -> divmod x' y (S q) y
+       | S u' -> divmod x' y q u')
+
+  (** val div : nat -> nat -> nat **)
+
+  let div x y = match y with
+  | O -> y
+  | S y' -> fst (divmod x y' O y')
  end
+
+(** val nth : nat -> 'a1 list -> 'a1 -> 'a1 **)
+
+let rec nth n0 l default =
+  match n0 with
+  | O -> (match l with
+          | [] -> default
+          | x :: _ -> x)
+  | S m -> (match l with
+            | [] -> default
+            | _ :: t -> nth m t default)
 
 (** val last : 'a1 list -> 'a1 -> 'a1 **)
 
@@ -108,6 +135,14 @@ let rec last l d =
   | a :: l0 -> (match l0 with
                 | [] -> a
                 | _ :: _ -> last l0 d)
+
+(** val removelast : 'a1 list -> 'a1 list **)
+
+let rec removelast = function
+| [] -> []
+| a :: l0 -> (match l0 with
+              | [] -> []
+              | _ :: _ -> a :: (removelast l0))
 
 (** val rev : 'a1 list -> 'a1 list **)
 
@@ -145,6 +180,12 @@ let rec fold_right f a0 = function
 let rec existsb f = function
 | [] -> false
 | a :: l0 -> (||) (f a) (existsb f l0)
+
+(** val forallb : ('a1 -> bool) -> 'a1 list -> bool **)
+
+let rec forallb f = function
+| [] -> true
+| a :: l0 -> (&&) (f a) (forallb f l0)
 
 (** val filter : ('a1 -> bool) -> 'a1 list -> 'a1 list **)
 
@@ -356,6 +397,18 @@ module Z =
        | Zpos y' -> pos_sub y' x'
        | Zneg y' -> Zneg (Pos.add x' y'))
 
+  (** val opp : z -> z **)
+
+  let opp = function
+  | Z0 -> Z0
+  | Zpos x0 -> Zneg x0
+  | Zneg x0 -> Zpos x0
+
+  (** val sub : z -> z -> z **)
+
+  let sub m n0 =
+    add m (opp n0)
+
   (** val compare : z -> z -> comparison **)
 
   let compare x y =
@@ -372,12 +425,46 @@ module Z =
        | Zneg y' -> compOpp (Pos.compare x' y')
        | _ -> Lt)
 
+  (** val leb : z -> z -> bool **)
+
+  let leb x y =
+    match compare x y with
+    | Gt -> false
+    | _ -> true
+
   (** val ltb : z -> z -> bool **)
 
   let ltb x y =
     match compare x y with
     | Lt -> true
     | _ -> false
+
+  (** val eqb : z -> z -> bool **)
+
+  let eqb x y =
+    match x with
+    | Z0 -> (match y with
+             | Z0 -> true
+             | _ -> false)
+    | Zpos p -> (match y with
+                 | Zpos q -> Pos.eqb p q
+                 | _ -> false)
+    | Zneg p -> (match y with
+                 | Zneg q -> Pos.eqb p q
+                 | _ -> false)
+
+  (** val max : z -> z -> z **)
+
+  let max n0 m =
+    match compare n0 m with
+    | Lt -> m
+    | _ -> n0
+
+  (** val abs : z -> z **)
+
+  let abs = function
+  | Zneg p -> Zpos p
+  | x -> x
  end
 
 type syll = nat
@@ -1027,6 +1114,15 @@ let rec consume_delims delims rest pos =
 
 type ms_state = (nat list * wgraph) * (nat * chunk list) list
 
+(** val coll_put :
+    nat -> chunk list -> (nat * chunk list) list -> (nat * chunk list) list **)
+
+let rec coll_put k it = function
+| [] -> (k, it) :: []
+| p :: r ->
+  let (k', it') = p in
+  if Nat.eqb k k' then (k, it) :: r else (k', it') :: (coll_put k it r)
+
 (** val ms_at :
     nat -> prism -> (nat * text) list -> table -> text -> text -> ms_state ->
     nat -> ms_state **)
@@ -1067,7 +1163,7 @@ let ms_at mhg pr syls t delims inp st start_pos =
                                   (drain_all it))))
                        else eh) same_start0)),
                      (if Nat.eqb start_pos O
-                      then app coll0 ((consumed, it) :: [])
+                      then coll_put consumed it coll0
                       else coll0))
                  | None -> ((verts0, same_start0), coll0))) (rev matches)
            ((verts, []), coll)
@@ -1143,3 +1239,426 @@ let table_query_gen poet presort completion sentence_on mhg pr syls t delims inp
 
 let table_query poet =
   table_query_gen poet true
+
+type comp = { cp_ent : dentry; cp_end : nat; cp_w : z }
+
+type line = comp list
+
+(** val l_empty : line -> bool **)
+
+let l_empty = function
+| [] -> true
+| _ :: _ -> false
+
+(** val l_weight : line -> z **)
+
+let l_weight = function
+| [] -> Z0
+| c :: _ -> c.cp_w
+
+(** val last_word : line -> text **)
+
+let last_word = function
+| [] -> []
+| c :: _ -> c.cp_ent.d_text
+
+(** val l_context : line -> text **)
+
+let l_context = function
+| [] -> []
+| c :: l0 ->
+  (match l0 with
+   | [] -> c.cp_ent.d_text
+   | p :: _ -> app p.cp_ent.d_text c.cp_ent.d_text)
+
+(** val diffs : nat -> nat list -> nat list **)
+
+let rec diffs prev = function
+| [] -> []
+| e :: r -> (sub e prev) :: (diffs e r)
+
+(** val word_lengths : line -> nat list **)
+
+let word_lengths l =
+  diffs O (map (fun c -> c.cp_end) (rev l))
+
+(** val lex_lt : nat list -> nat list -> bool **)
+
+let rec lex_lt a b =
+  match a with
+  | [] -> (match b with
+           | [] -> false
+           | _ :: _ -> true)
+  | x :: a' ->
+    (match b with
+     | [] -> false
+     | y :: b' ->
+       if Nat.ltb x y
+       then true
+       else if Nat.ltb y x then false else lex_lt a' b')
+
+(** val compare_weight : line -> line -> bool **)
+
+let compare_weight one other =
+  Z.ltb (l_weight one) (l_weight other)
+
+(** val left_associate_compare : line -> line -> bool **)
+
+let left_associate_compare one other =
+  if Z.ltb (l_weight one) (l_weight other)
+  then true
+  else if Z.eqb (l_weight one) (l_weight other)
+       then let a = word_lengths one in
+            let b = word_lengths other in
+            if Nat.ltb (length b) (length a)
+            then true
+            else if Nat.eqb (length a) (length b) then lex_lt a b else false
+       else false
+
+(** val sentence_of : line -> sentence **)
+
+let sentence_of l =
+  map (fun c -> (c.cp_ent, c.cp_end)) (rev l)
+
+(** val put : nat -> 'a1 -> (nat * 'a1) list -> (nat * 'a1) list **)
+
+let rec put k v = function
+| [] -> (k, v) :: []
+| p :: r ->
+  let (k', v') = p in
+  if Nat.eqb k k' then (k, v) :: r else (k', v') :: (put k v r)
+
+(** val evaluate :
+    (text -> text -> bool -> z) option -> z -> text -> dentry -> bool -> z **)
+
+let evaluate gr pen context d is_rear =
+  Z.add d.d_w
+    (match gr with
+     | Some q -> q context d.d_text is_rear
+     | None -> pen)
+
+(** val new_line :
+    (text -> text -> bool -> z) option -> z -> text -> line -> nat -> bool ->
+    dentry -> line **)
+
+let new_line gr pen preceding cand0 end_pos is_rear d =
+  let context = if l_empty cand0 then preceding else l_context cand0 in
+  { cp_ent = d; cp_end = end_pos; cp_w =
+  (Z.add (l_weight cand0) (evaluate gr pen context d is_rear)) } :: cand0
+
+(** val better : (line -> line -> bool) -> line -> line -> line **)
+
+let better cmp best nl =
+  if (||) (l_empty best) (cmp best nl) then nl else best
+
+type dp_states = (nat * line) list
+
+(** val dp_edge :
+    (text -> text -> bool -> z) option -> z -> (line -> line -> bool) -> text
+    -> nat -> nat -> line -> dp_states -> (nat * dentry list) -> dp_states **)
+
+let dp_edge gr pen cmp preceding start_pos total0 cand0 sts ev =
+  let end_pos = fst ev in
+  if (&&) (Nat.eqb start_pos O) (Nat.eqb end_pos total0)
+  then sts
+  else let target = match assoc_nat end_pos sts with
+                    | Some l -> l
+                    | None -> []
+       in
+       put end_pos
+         (fold_left (fun best d ->
+           better cmp best
+             (new_line gr pen preceding cand0 end_pos
+               (Nat.eqb end_pos total0) d)) (snd ev) target) sts
+
+(** val dp_step :
+    (text -> text -> bool -> z) option -> z -> (line -> line -> bool) -> text
+    -> nat -> dp_states -> (nat * (nat * dentry list) list) -> dp_states **)
+
+let dp_step gr pen cmp preceding total0 sts sv =
+  match assoc_nat (fst sv) sts with
+  | Some cand0 ->
+    fold_left (dp_edge gr pen cmp preceding (fst sv) total0 cand0) (snd sv)
+      sts
+  | None -> sts
+
+(** val dp_run :
+    (text -> text -> bool -> z) option -> z -> (line -> line -> bool) -> text
+    -> wgraph -> nat -> dp_states **)
+
+let dp_run gr pen cmp preceding wg total0 =
+  fold_left (dp_step gr pen cmp preceding total0) wg ((O, []) :: [])
+
+(** val dp_sentence :
+    (text -> text -> bool -> z) option -> z -> (line -> line -> bool) -> text
+    -> wgraph -> nat -> sentence option **)
+
+let dp_sentence gr pen cmp preceding wg total0 =
+  match assoc_nat total0 (dp_run gr pen cmp preceding wg total0) with
+  | Some l -> (match l with
+               | [] -> None
+               | _ :: _ -> Some (sentence_of l))
+  | None -> None
+
+type bstate = (text * line) list
+
+(** val bs_find : text -> bstate -> line option **)
+
+let rec bs_find k = function
+| [] -> None
+| p :: r -> let (k', l) = p in if text_eqb k k' then Some l else bs_find k r
+
+(** val bs_put : text -> line -> bstate -> bstate **)
+
+let rec bs_put k v = function
+| [] -> (k, v) :: []
+| p :: r ->
+  let (k', l) = p in
+  if text_eqb k k' then (k, v) :: r else (k', l) :: (bs_put k v r)
+
+(** val upper_bound :
+    nat -> (line -> bool) -> line list -> nat -> nat -> nat **)
+
+let rec upper_bound fuel lt l first len =
+  match fuel with
+  | O -> first
+  | S f ->
+    if Nat.eqb len O
+    then first
+    else let half = Nat.div len (S (S O)) in
+         let middle = add first half in
+         if lt (nth middle l [])
+         then upper_bound f lt l first half
+         else upper_bound f lt l (S middle) (sub (sub len half) (S O))
+
+(** val k_max_line_candidates : nat **)
+
+let k_max_line_candidates =
+  S (S (S (S (S (S (S O))))))
+
+(** val top_insert :
+    (line -> line -> bool) -> line list -> line -> line list **)
+
+let top_insert cmp top c =
+  let pos = upper_bound (S (length top)) (fun x -> cmp x c) top O (length top)
+  in
+  if Nat.leb k_max_line_candidates pos
+  then top
+  else let t = app (firstn pos top) (c :: (skipn pos top)) in
+       if Nat.ltb k_max_line_candidates (length t) then removelast t else t
+
+(** val find_top : (line -> line -> bool) -> bstate -> line list **)
+
+let find_top cmp st =
+  fold_left (top_insert cmp) (map snd st) []
+
+(** val beam_entry :
+    (text -> text -> bool -> z) option -> z -> (line -> line -> bool) -> text
+    -> line -> nat -> bool -> bstate -> dentry -> bstate **)
+
+let beam_entry gr pen cmp preceding cand0 end_pos is_rear st d =
+  let nl = new_line gr pen preceding cand0 end_pos is_rear d in
+  let key = last_word nl in
+  let best = match bs_find key st with
+             | Some l -> l
+             | None -> [] in
+  bs_put key (better cmp best nl) st
+
+type beam_states = (nat * bstate) list
+
+(** val beam_edge :
+    (text -> text -> bool -> z) option -> z -> (line -> line -> bool) -> text
+    -> nat -> nat -> line -> beam_states -> (nat * dentry list) -> beam_states **)
+
+let beam_edge gr pen cmp preceding start_pos total0 cand0 sts ev =
+  let end_pos = fst ev in
+  if (&&) (Nat.eqb start_pos O) (Nat.eqb end_pos total0)
+  then sts
+  else let target =
+         match assoc_nat end_pos sts with
+         | Some st -> st
+         | None -> []
+       in
+       put end_pos
+         (fold_left
+           (beam_entry gr pen cmp preceding cand0 end_pos
+             (Nat.eqb end_pos total0)) (snd ev) target) sts
+
+(** val beam_step :
+    (text -> text -> bool -> z) option -> z -> (line -> line -> bool) -> text
+    -> nat -> beam_states -> (nat * (nat * dentry list) list) -> beam_states **)
+
+let beam_step gr pen cmp preceding total0 sts sv =
+  match assoc_nat (fst sv) sts with
+  | Some src ->
+    fold_left (fun sts' cand0 ->
+      fold_left (beam_edge gr pen cmp preceding (fst sv) total0 cand0)
+        (snd sv) sts') (find_top cmp src) sts
+  | None -> sts
+
+(** val beam_run :
+    (text -> text -> bool -> z) option -> z -> (line -> line -> bool) -> text
+    -> wgraph -> nat -> beam_states **)
+
+let beam_run gr pen cmp preceding wg total0 =
+  fold_left (beam_step gr pen cmp preceding total0) wg ((O, (([],
+    []) :: [])) :: [])
+
+(** val best_in_state : (line -> line -> bool) -> bstate -> line **)
+
+let best_in_state cmp st =
+  match fold_left (fun best kl ->
+          match best with
+          | Some b -> if cmp b (snd kl) then Some (snd kl) else best
+          | None -> Some (snd kl)) st None with
+  | Some b -> b
+  | None -> []
+
+(** val beam_sentence :
+    (text -> text -> bool -> z) option -> z -> (line -> line -> bool) -> text
+    -> wgraph -> nat -> sentence option **)
+
+let beam_sentence gr pen cmp preceding wg total0 =
+  match assoc_nat total0 (beam_run gr pen cmp preceding wg total0) with
+  | Some st ->
+    (match st with
+     | [] -> None
+     | _ :: _ -> Some (sentence_of (best_in_state cmp st)))
+  | None -> None
+
+(** val make_sentence :
+    (text -> text -> bool -> z) option -> z -> (line -> line -> bool) -> text
+    -> wgraph -> nat -> sentence option **)
+
+let make_sentence gr pen cmp preceding wg total0 =
+  match gr with
+  | Some _ -> beam_sentence gr pen cmp preceding wg total0
+  | None -> dp_sentence gr pen cmp preceding wg total0
+
+(** val increments : line -> z list **)
+
+let rec increments = function
+| [] -> []
+| c :: r -> (Z.sub c.cp_w (l_weight r)) :: (increments r)
+
+(** val zlist_eqb : z list -> z list -> bool **)
+
+let rec zlist_eqb a b =
+  match a with
+  | [] -> (match b with
+           | [] -> true
+           | _ :: _ -> false)
+  | x :: a' ->
+    (match b with
+     | [] -> false
+     | y :: b' -> (&&) (Z.eqb x y) (zlist_eqb a' b'))
+
+(** val safe_pair : z -> bool -> line -> line -> bool **)
+
+let safe_pair eps exact kept nl =
+  let d = Z.abs (Z.sub (l_weight kept) (l_weight nl)) in
+  (||) (Z.leb eps d)
+    ((&&) (Z.eqb d Z0)
+      ((||) exact (zlist_eqb (increments kept) (increments nl))))
+
+(** val dp_robust :
+    (text -> text -> bool -> z) option -> z -> (line -> line -> bool) -> text
+    -> z -> bool -> wgraph -> nat -> bool **)
+
+let dp_robust gr pen cmp preceding eps exact wg total0 =
+  let sts = dp_run gr pen cmp preceding wg total0 in
+  forallb (fun sv ->
+    match assoc_nat (fst sv) sts with
+    | Some cand0 ->
+      forallb (fun ev ->
+        if (&&) (Nat.eqb (fst sv) O) (Nat.eqb (fst ev) total0)
+        then true
+        else (match assoc_nat (fst ev) sts with
+              | Some kept ->
+                forallb (fun d ->
+                  safe_pair eps exact kept
+                    (new_line gr pen preceding cand0 (fst ev)
+                      (Nat.eqb (fst ev) total0) d)) (snd ev)
+              | None -> false)) (snd sv)
+    | None -> true) wg
+
+(** val all_pairs : ('a1 -> 'a1 -> bool) -> 'a1 list -> bool **)
+
+let rec all_pairs p = function
+| [] -> true
+| x :: r -> (&&) (forallb (p x) r) (all_pairs p r)
+
+(** val beam_robust :
+    (text -> text -> bool -> z) option -> z -> (line -> line -> bool) -> text
+    -> z -> bool -> wgraph -> nat -> bool **)
+
+let beam_robust gr pen cmp preceding eps exact wg total0 =
+  let sts = beam_run gr pen cmp preceding wg total0 in
+  (&&)
+    (forallb (fun ps ->
+      all_pairs (fun a b ->
+        Z.leb eps (Z.abs (Z.sub (l_weight (snd a)) (l_weight (snd b)))))
+        (snd ps)) sts)
+    (forallb (fun sv ->
+      match assoc_nat (fst sv) sts with
+      | Some src ->
+        forallb (fun cand0 ->
+          forallb (fun ev ->
+            if (&&) (Nat.eqb (fst sv) O) (Nat.eqb (fst ev) total0)
+            then true
+            else (match assoc_nat (fst ev) sts with
+                  | Some st ->
+                    forallb (fun d ->
+                      let nl =
+                        new_line gr pen preceding cand0 (fst ev)
+                          (Nat.eqb (fst ev) total0) d
+                      in
+                      (match bs_find (last_word nl) st with
+                       | Some kept -> safe_pair eps exact kept nl
+                       | None -> false)) (snd ev)
+                  | None -> false)) (snd sv)) (find_top cmp src)
+      | None -> true) wg)
+
+(** val robust :
+    (text -> text -> bool -> z) option -> z -> (line -> line -> bool) -> text
+    -> z -> bool -> wgraph -> nat -> bool **)
+
+let robust gr pen cmp preceding eps exact wg total0 =
+  match gr with
+  | Some _ -> beam_robust gr pen cmp preceding eps exact wg total0
+  | None -> dp_robust gr pen cmp preceding eps exact wg total0
+
+(** val poet_script : z -> wgraph -> nat -> sentence option **)
+
+let poet_script pen =
+  make_sentence None pen compare_weight []
+
+(** val poet_table : z -> wgraph -> nat -> sentence option **)
+
+let poet_table pen =
+  make_sentence None pen left_associate_compare []
+
+(** val best_match : dentry -> dentry list -> z option **)
+
+let rec best_match d = function
+| [] -> None
+| x :: r ->
+  let rest = best_match d r in
+  if (&&) (text_eqb d.d_text x.d_text) (code_eqb d.d_code x.d_code)
+  then (match rest with
+        | Some w -> Some (Z.max w x.d_w)
+        | None -> Some x.d_w)
+  else rest
+
+(** val chain_weight : z -> wgraph -> nat -> sentence -> z option **)
+
+let rec chain_weight pen wg pos = function
+| [] -> Some Z0
+| p :: r ->
+  let (d, e) = p in
+  (match best_match d (assoc_list e (assoc_list pos wg)) with
+   | Some w ->
+     (match chain_weight pen wg e r with
+      | Some w' -> Some (Z.add (Z.add w pen) w')
+      | None -> None)
+   | None -> None)
